@@ -141,8 +141,19 @@ func (w *cworld) install() func() {
 		}
 	}
 	simsync.Yield = func(what string) { w.yield(what) }
+	simsync.LoopYield = func(what string) {
+		// only goroutines that already have a name: a goroutine is named after its first
+		// interaction, which must identify it (interface name), and a loop position does not
+		w.mu.Lock()
+		_, known := w.names[sim.GoID()]
+		w.mu.Unlock()
+		if known {
+			w.yield(what)
+		}
+	}
 	return func() {
 		simsync.Yield = nil
+		simsync.LoopYield = nil
 		w.fs.Yield = nil
 		restoreFS()
 	}
